@@ -102,6 +102,10 @@ class Gen:
             if depth0_only and d > 0:
                 break
             for c in sc.cols:
+                if d > 0 and "." not in c.sql:
+                    # the unqualified merged column of a USING join: inside a nested block the bare name would
+                    # resolve to a column of the inner tables first
+                    continue
                 if c.ty == ty or (ty == "int" and c.ty in INT_TYPES):
                     out.append((d, c))
         return out
